@@ -34,7 +34,7 @@ claim("C11",
 claim("C12",
   "call-graph reachability (CHA/VTA) from callbacks run under the endpoint lock + error-flow in generated stubs + guarded reachability",
   "Decides that closers/filters (which run under handlersMutex) cannot re-acquire it or block, that dispatch never blocks and answers a full-queue Call with an Error, that every argument-decoding error in a generated stub becomes SendError without calling the method, that unknown service/object/action are answered, that removal entry points delete exactly the id named, and that no explicit panic is reachable from a Receive implementation.",
-  "Liveness under floods, implicit panics and C07's unbounded allocations are not decided. Known finding D10 (self-deadlock through signal/disconnect closers, two instances, both reproduced) listed in known_findings.txt.",
+  "Liveness under floods, implicit panics and C07's unbounded allocations are not decided. D10 (self-deadlock through signal/disconnect closers) was found by this rule, repaired in /repo (63a82dd) and is recorded as fixed in known_findings.txt.",
   "DESIGN.md §3 C12")
 
 claim("C13",
@@ -64,7 +64,7 @@ claim("C16",
 claim("C17",
   "ownership/typestate invariants: who closes / sends / fills slots (closed lists), lockset, guarded reachability, call-graph re-entrancy",
   "Decides seven invariants that together imply at-most-once close after the callback on every path and for every interleaving (all table accesses are under one mutex): single closer site after the callback; closeWith only on non-nil slots under the mutex with the slot cleared before release; slots filled only by MakeHandler with a fresh handler into a nil slot; the only send is dispatch's non-blocking one under the mutex; private queues per registration; RemoveHandler errors for unknown/removed ids; callbacks do not re-enter the mutex.",
-  "Handlers registered while shutdown runs and general deadlock freedom are not decided. Known finding D10 listed in known_findings.txt.",
+  "Handlers registered while shutdown runs and general deadlock freedom are not decided. D10 (closers run under the handler lock by RemoveHandler) was found by this rule, repaired in /repo (63a82dd) and is recorded as fixed in known_findings.txt.",
   "DESIGN.md §3 C17")
 
 
